@@ -37,5 +37,6 @@ type ClassMetaclass struct {
 
 // Call the the function with the arguments provided.
 func (f *ClassMetaclass) Call(s *slip.Scope, args slip.List, depth int) (result slip.Object) {
+	slip.CheckArgCount(s, depth, f, args, 1, 1)
 	return classFromArg0(f, s, args, depth).Metaclass()
 }
